@@ -117,6 +117,26 @@ Definition shift_spec (s : sst) (p d : N) (l : list em) (n : N) (o : obs) : sst 
 Definition upd (s : sst) (a : list (N * N * N)) (l : list em) (ans : list N) (n : N) (o : obs) : sst :=
   {| acc := a; emitted := l; answered := ans; nemit := n; prev := o; sloaded := sloaded s |}.
 
+(* the window step: helpers on snapshots / outputs *)
+Definition snap_of (o : obs) (p : N) : list N :=
+  match find (fun x => nth 0 x 0 =? p) (o_snap o) with Some x => x | None => [] end.
+Definition has_trans (o : list out) : bool := existsb (fun x => match x with OTrans _ _ _ _ => true | _ => false end) o.
+Definition has_init_for (o : list out) (p : N) : bool :=
+  existsb (fun x => match x with OInit _ q _ _ => q =? p | _ => false end) o.
+Definition has_resp_for (o : list out) (p : N) : bool :=
+  existsb (fun x => match x with OResp _ q _ _ _ => q =? p | _ => false end) o.
+
+Definition unstrict (l : list em) (p : N) : list em :=
+  map (fun x => if em_p x =? p then {| em_p := p; em_seq := em_seq x; em_ts := em_ts x; em_strict := false |} else x) l.
+Definition shift_acc (a : list (N * N * N)) (p d : N) : list (N * N * N) :=
+  map (fun x => if fst (fst x) =? p then (fst x, snd x - d) else x) a.
+
+(* clauses 2/3 for an initiation m answered (response for peer p left) at a step that began at now *)
+Definition init_clauses (a : list (N * N * N)) (t : tstep) (m : msg) (p : N) : list N :=
+  let mine := filter (fun x => fst (fst x) =? p) a in
+  (if existsb (fun x => m_ts m <=? snd (fst x)) mine then [2] else []) ++
+  (if existsb (fun x => s_hi t - snd x <? prop_rate) mine then [3] else []).
+
 (* clause numbers:
    1 bad message not inert          2 accepted initiation not strictly newer
    3 accepted initiation inside 1/50 s   4 session for a superseded initiation
@@ -124,7 +144,12 @@ Definition upd (s : sst) (a : list (N * N * N)) (l : list em) (ans : list N) (n 
 Definition clauses (s : sst) (t : tstep) : list N * sst :=
   let o := s_obs t in
   let now := e_now (s_ev t) in
-  let '(em, n, bad6) := record_emitted (o_out o) (emitted s) (nemit s) false in
+  (* a time shift inside the window precedes the initiation sent there *)
+  let '(acc0, em0) := match e_body (s_ev t) with
+                      | BRespWindow _ _ (WShiftInitiate p d) => (shift_acc (acc s) p d, unstrict (emitted s) p)
+                      | _ => (acc s, emitted s)
+                      end in
+  let '(em, n, bad6) := record_emitted (o_out o) em0 (nemit s) false in
   let c6 := if bad6 then [6] else [] in
   match e_body (s_ev t) with
   | BMsg src m =>
@@ -133,10 +158,7 @@ Definition clauses (s : sst) (t : tstep) : list N * sst :=
       | KInit =>
           match resp_peer (o_out o) with
           | Some p =>
-              let mine := filter (fun x => fst (fst x) =? p) (acc s) in
-              let c2 := if existsb (fun x => m_ts m <=? snd (fst x)) mine then [2] else [] in
-              let c3 := if existsb (fun x => s_hi t - snd x <? prop_rate) mine then [3] else [] in
-              (c1 ++ c2 ++ c3 ++ c6,
+              (c1 ++ init_clauses (acc s) t m p ++ c6,
                upd s ((p, m_ts m, now) :: acc s) em (answered s) n o)
           | None => (c1 ++ c6, upd s (acc s) em (answered s) n o)
           end
@@ -150,6 +172,34 @@ Definition clauses (s : sst) (t : tstep) : list N * sst :=
           | None => (c1 ++ c6, upd s (acc s) em (answered s) n o)
           end
       end
+  | BRespWindow src m w =>
+      (* The response m reached the device, and while its worker was between consuming it and
+         deriving the session, w happened.  If in w the device sent a newer initiation to the
+         peer, or answered an initiation of the peer, the handshake m answers is superseded:
+         no session may come out of m (no transport, no handshake completion, and — when only
+         a new initiation left — the peer's key slots as before).  Otherwise m is judged as a
+         sequential response. *)
+      let p := m_static m in
+      let sp := snap_of (prev s) p in
+      let sn := snap_of o p in
+      let superseded := has_init_for (o_out o) p || has_resp_for (o_out o) p in
+      let completed := negb (nth 10 sn 0 =? nth 10 sp 0) in
+      let slots_changed := negb (list_eqb N.eqb (skipn 11 sn) (skipn 11 sp)) in
+      let session := has_trans (o_out o) || completed in
+      let c4 := if superseded
+                then (if session || (has_init_for (o_out o) p && slots_changed) then [4] else [])
+                else (if session && negb (m_ans m =? latest_seq (emitted s) p) then [4] else []) in
+      let c5 := if session && existsb (N.eqb (m_ans m)) (answered s) then [5] else [] in
+      let ans' := if session then m_ans m :: answered s else answered s in
+      let '(c23, acc1) := match w with
+                          | WMsg _ m2 =>
+                              match m_kind m2, resp_peer (o_out o) with
+                              | KInit, Some q => (init_clauses acc0 t m2 q, (q, m_ts m2, now) :: acc0)
+                              | _, _ => ([], acc0)
+                              end
+                          | _ => ([], acc0)
+                          end in
+      (c4 ++ c5 ++ c23 ++ c6, upd s acc1 em ans' n o)
   | BShift p d => (c6, shift_spec s p d em n o)
   | BLoad on => (c6, {| acc := acc s; emitted := em; answered := answered s; nemit := n; prev := o; sloaded := on |})
   | _ => (c6, upd s (acc s) em (answered s) n o)
